@@ -24,10 +24,11 @@ RULE = (
 ASSUMPTIONS = [
     "observation by wrapping the run methods of the four step objects, StateManager.commit_current_to_history and parallel_mcmc on the instance/module",
     "the instrumented likelihood is bit-identical in scalar and vectorised form by construction (same Python float arithmetic per row)",
+    "coherence_full draws a complete configuration (every constructor option, incl. pools, extra likelihood arguments, random_state types, odd particle counts, narrow likelihoods) from vlib.cfggen",
 ]
 
 
-def check_records(t, u, x, logl, blobs, where, need_u=True):
+def check_records(t, u, x, logl, blobs, where, need_u=True, llf=None):
     if x is None or logl is None:
         return 0
     x, logl = np.asarray(x, dtype=float), np.asarray(logl, dtype=float)
@@ -44,7 +45,7 @@ def check_records(t, u, x, logl, blobs, where, need_u=True):
             if not np.array_equal(t.pt(ui), x[i]):
                 raise Violation(f"{where}: particle {i}: x={x[i].tolist()} is not the prior transform of its u={ui.tolist()} "
                                 f"(pt(u)={t.pt(ui).tolist()})", sig={"kind": "x-not-pt(u)", "where": where.split(':')[0]})
-        li = t.ll_row(x[i])
+        li = t.ll_row(x[i]) if llf is None else llf(x[i])
         if not (li == logl[i]):
             raise Violation(f"{where}: particle {i}: stored logl={logl[i]!r} but the likelihood at its x is {li!r}",
                             sig={"kind": "logl-mismatch", "where": where.split(':')[0]})
@@ -154,4 +155,57 @@ class Coherence(RowCheck):
                 "sample": {"row": row, "seed": seed, "iterations": T, "records_checked": stats["records"], "mutation_calls": stats["mut_calls"]}}
 
 
-CHECKS = [Coherence()]
+# ----------------------------------------------------------------------------- the same oracle over complete random configurations
+
+
+def exec_full(case):
+    from vlib import cfggen
+
+    np.random.seed(case["rs_value"] % 2**31)
+    s, t = cfggen.build(case)
+    core = core_of(s)
+    st = core.state
+    blobs_on = case["mode"] in ("blobs", "blobs2")
+    llf = lambda xr: cfggen.ll_of(case, t, xr)  # noqa
+    stats = {"mixed": 0, "records": 0}
+
+    def cur(where):
+        c = st.get_current()
+        stats["records"] += check_records(t, c["u"], c["x"], c["logl"], c["blobs"] if blobs_on else None, where, llf=llf)
+
+    wrap_method(core.resampler, "run", after=lambda r, *a, **k: cur("after resample: current state"))
+    wrap_method(core.mutator, "run", after=lambda r, *a, **k: cur("after mutate: current state"))
+    wrap_method(st, "commit_current_to_history", before=lambda *a, **k: cur("at commit: current state"))
+
+    def obs(kw, res):
+        moved = np.any(np.asarray(res[0]) != np.asarray(kw["u"]), axis=1)
+        if moved.any() and (~moved).any():
+            stats["mixed"] += 1
+        check_records(t, res[0], res[1], res[2], res[3] if blobs_on else None, "parallel_mcmc: returned particles", llf=llf)
+
+    with patched_parallel_mcmc(obs), quiet():
+        lib_call(s.run, n_total=3 * case["n_particles"], progress=False, what="Sampler.run")
+    T = st.get_history_length()
+    for i in range(T):
+        check_records(t, st.get_history("u", index=i), st.get_history("x", index=i), st.get_history("logl", index=i),
+                      st.get_history("blobs", index=i) if blobs_on else None, f"history batch {i}", llf=llf)
+    for rs_, tr in itertools.product([False, True], repeat=2):
+        o = lib_call(s.posterior, resample=rs_, trim_importance_weights=tr, return_blobs=True, return_logw=True, what="posterior")
+        check_records(t, None, o[0], o[2], o[3] if blobs_on else None, f"posterior(resample={rs_},trim={tr}): returned samples", llf=llf)
+    return {"nontrivial": stats["mixed"] > 0,
+            "classes": ["mode:" + case["mode"], "pool:%s" % case["pool"], "extra:" + case["ll_extra"], "metric:" + case["metric"],
+                        "boundary:" + ("both" if case["periodic"] and case["reflective"] else "periodic" if case["periodic"] else "reflective" if case["reflective"] else "none")],
+            "sample": cfggen.summary(case)}
+
+
+def _full_cases():
+    from vlib import cfggen
+
+    return cfggen.full_config()
+
+
+from vlib.hypo import Check  # noqa: E402
+
+CHECKS = [Coherence(),
+          Check("coherence_full", _full_cases, exec_full, n={"quick": 64, "thorough": 1200}, shards={"quick": 16, "thorough": 16},
+                shrink={"quick": False, "thorough": True})]
